@@ -10,3 +10,7 @@ import InToto.Properties.C02
 #print axioms InToto.C02.link_file_names
 #print axioms InToto.C02.garbage_ignored
 #print axioms InToto.C02.facts_link_formats
+#print axioms InToto.C02.acceptance_implies_thresholds_met
+#print axioms InToto.C02.enough_counted_links_always_suffice
+#print axioms InToto.C02.one_short_step_fails
+#print axioms InToto.C02.pipeline_is_conjunction_of_stages
